@@ -235,6 +235,40 @@ def step (s : St) (ws : List String) : St × String :=
       | none => (s, "err")
       | some m => (s, showKeySet decls m)
     | none => (s, "bad-op")
+  -- chain/processor.go: a block through Processor.Execute
+  -- `block <cores> <parent k:v,..|_> <tx>/<tx>/..`, tx = action+action.., action = decl!reads!writes
+  | ["block", _cores, par, txs] =>
+    let parseKV (e : String) : Option (Key × Val) :=
+      match parsePair e with
+      | some (k, v) => match parseHex k, parseVal v with
+        | some k, some v => some (k, v)
+        | _, _ => none
+      | none => none
+    let parseAct (a : String) : Option Act :=
+      match a.splitOn "!" with
+      | [d, r, w] =>
+        match parseDecl (if d == "_" then "" else d),
+              allSome ((splitList (if r == "_" then "" else r)).map parseHex),
+              allSome ((splitList (if w == "_" then "" else w)).map parseKV) with
+        | some d, some r, some w => some { decl := d, reads := r, writes := w }
+        | _, _, _ => none
+      | _ => none
+    let parent := allSome ((splitList (if par == "_" then "" else par)).map parseKV)
+    let block := allSome ((txs.splitOn "/").map fun t => allSome ((t.splitOn "+").map parseAct))
+    match parent, block with
+    | some parent, some block =>
+      let pm : Key → Option Val := fun k => parent.lookup k
+      let keysOf : List Key := (parent.map (·.1) ++ block.flatten.flatMap (fun a =>
+        a.decl.map (·.1) ++ a.reads ++ a.writes.map (·.1))).eraseDups
+      match TS.new.execBlock pm block with
+      | none => (s, "block-error")
+      | some (ts, rs) =>
+        let showR (r : Option Out) : String := match r with | none => "ok" | some o => showOut o
+        let post := keysOf.map fun k =>
+          toHex k ++ "=" ++ (match (match ts.changedKeys k with | some x => x | none => pm k) with
+            | some v => showVal v | none => "_")
+        (s, "r=" ++ ",".intercalate (rs.map showR) ++ " post=" ++ " ".intercalate post)
+    | _, _ => (s, "bad-op")
   | ["simhas", k, p] =>
     match parseHex k, parsePerm p with
     | some k, some p =>
